@@ -358,11 +358,26 @@ def translate_py(py_text):
     log["reader_args"] = args
     # make_awkward_content
     mc = fn.get("make_awkward_content")
-    if mc is None or [a.arg for a in mc.args.args] != ["self", "raw_data"] or len(mc.body) != 1 or \
-            not isinstance(mc.body[0], ast.Return) or not is_call(mc.body[0].value, "awkward.contents.NumpyArray") or \
-            len(mc.body[0].value.args) != 1 or not is_call(mc.body[0].value.args[0], "raw_data.reshape"):
-        raise Untranslatable("make_awkward_content is not `return NumpyArray(raw_data.reshape(...))`")
-    rs = [ast.unparse(a) for a in mc.body[0].value.args[0].args]
+    if mc is None or [a.arg for a in mc.args.args] != ["self", "raw_data"]:
+        raise Untranslatable("make_awkward_content signature changed")
+    mbody = [n for n in mc.body if not (isinstance(n, ast.Expr) and isinstance(n.value, ast.Constant))]
+    if len(mbody) == 1 and isinstance(mbody[0], ast.Return) and is_call(mbody[0].value, "awkward.contents.NumpyArray") and \
+            len(mbody[0].value.args) == 1 and is_call(mbody[0].value.args[0], "raw_data.reshape"):
+        # return NumpyArray(raw_data.reshape(-1, d1, d2))
+        rs = [ast.unparse(a) for a in mbody[0].value.args[0].args]
+        log["content_shape"] = "NumpyArray with inner shape"
+    elif (len(mbody) == 3 and ast.unparse(mbody[0]) == "content = awkward.contents.NumpyArray(raw_data.reshape(-1))"
+          and isinstance(mbody[1], ast.Assign) and ast.unparse(mbody[1].targets[0]) == "content"
+          and is_call(mbody[1].value, "awkward.contents.RegularArray") and len(mbody[1].value.args) == 2 and not mbody[1].value.keywords
+          and ast.unparse(mbody[1].value.args[0]) == "content"
+          and isinstance(mbody[2], ast.Return) and is_call(mbody[2].value, "awkward.contents.RegularArray")
+          and len(mbody[2].value.args) == 2 and not mbody[2].value.keywords and ast.unparse(mbody[2].value.args[0]) == "content"):
+        # flat buffer wrapped by RegularArray(size = row length) and then RegularArray(size = rows per matrix):
+        # the same list-of-lists as raw_data.reshape(-1, rows, row length)      [rule: RegularArray(c, n) groups n consecutive items of c]
+        rs = ["-1", ast.unparse(mbody[2].value.args[1]), ast.unparse(mbody[1].value.args[1])]
+        log["content_shape"] = "RegularArray(RegularArray(NumpyArray))"
+    else:
+        raise Untranslatable("make_awkward_content is neither `return NumpyArray(raw_data.reshape(...))` nor the two-level RegularArray wrapping of the flat buffer")
     if len(rs) != 3 or rs[0] != "-1" or rs[1] not in amap or rs[2] not in amap:
         raise Untranslatable(f"reshape arguments not of the form (-1, d1, d2): {rs}")
     log["reshape"] = rs
